@@ -58,6 +58,10 @@ class AccWorld(World):
             return Poly.sym("a%d" % i)
         if name == "shape":
             return Sym("shape", "s")
+        if name == "size":
+            return len(self.order)
+        if name == "grid":
+            return Sym("grid", "g")
         if name in ("rbegin", "rend", "begin", "end") and "stl_container_iterator_wrapper" in (callee.cls or ""):
             seq = it.rv(it.eval(call["obj"], frame))
             from ..interp import Iter
